@@ -367,6 +367,13 @@ def evaluate(case, stt):
                 rid = next(i for i, r in enumerate(comp.routine_ops) if any(op.offset == off for op in r))
                 same = {op.offset for op in comp.routine_ops[rid]}
                 after = [o for o in after if o in same]
+                # the first op written directly in the routine that is EMITTED behind the expansion (ops of a following
+                # expansion are skipped): the return address may not lie after it
+                rops = comp.routine_ops[rid]
+                last_i = max(i for i, op in enumerate(rops) if op.offset in inside)
+                nxt_direct = next((op for op in rops[last_i + 1:] if op.offset not in macro_entries), None)
+                if nxt_direct is not None and e.return_addr > nxt_direct.offset and e.return_addr > hi:
+                    fails.append(Failure("return_addr_after_next_emitted_op", f"{nm}@{off}: return address {e.return_addr} lies after @{nxt_direct.offset} ({nxt_direct.op_code.name}), the first direct op emitted behind the expansion\n{shown}"))
                 if e.return_addr <= hi:
                     fails.append(Failure("return_addr_inside_expansion", f"{nm}@{off}: return address {e.return_addr} but op @{hi} still belongs to the expansion\n{shown}"))
                 elif after and e.return_addr > min(after):
